@@ -196,7 +196,7 @@ HISTORY = {
     "C07/L7-m1": ("missed", "wsim: messages with explicit Message.Time values that are not monotonic in submission order"),
     "C18/L7-m1": ("missed", "unit TestLegs: a user-written sasl.Mechanism of 1-12 round trips (mechanism LEGS in the fake) through every entry point"),
     "C09/L8-m1": ("missed", "reader stratum setoffset-loop: Close while the application keeps calling SetOffset (C10's check reported it too, as a data race on Reader.cancel)"),
-    "C12/L10-m1": ("missed", "NOT CAUGHT, by decision: C12's histories now also send rawproduce.Request (step flag raw), but the change only shows when metadata names a leader id that is absent from its own broker list; brokers report such a partition with leader -1, and the fake does what brokers do"),
+    "C12/L10-m1": ("missed", "NOT CAUGHT, by decision: the change only shows when metadata names a leader id that is absent from its own broker list; brokers report such a partition with leader -1, and the fake does what brokers do. (Steps can be sent as rawproduce.Request -- step flag raw -- but the generator does not draw it: see DESIGN 7.4)"),
 }
 
 
